@@ -16,7 +16,7 @@ func buildProperties() []Property {
 		},
 		{
 			ID: "C06", Title: "Text written by writeq/write_canonical reads back as the same term",
-			Decides:    "agreement of the writer's and the reader's tables and exactness of the number paths: every escape the writer can emit is accepted by the lexer class, matched by the reader's pattern and mapped back to the same character; quote, backslash and control characters always trigger escaping; floats are written with the shortest round-tripping representation and read by one correctly rounding conversion; write_term/3 and read_term/3 use the VM's one operator table. The write options are extended copy-on-write: a map reached through an options struct received by value is never updated in place.",
+			Decides:    "agreement of the writer's and the reader's tables and exactness of the number paths: every escape the writer can emit is accepted by the lexer class, matched by the reader's pattern and mapped back to the same character; quote, backslash and control characters always trigger escaping; floats are written with the shortest round-tripping representation and read by one correctly rounding conversion; write_term/3 and read_term/3 use the VM's one operator table. The write options are extended copy-on-write: a map reached through an options struct received by value is never updated in place. Integer and Float agree on blanks and parentheses next to operators (zero and negative zero included); a character is written verbatim inside quotes only if the lexer's own predicate accepts it; the functor of functional notation is written without an operator table; only the token `_` is anonymous; the reader produces no infinite Float.",
 			NotDecided: "bracketing/spacing correctness for operator contexts - the heart of the round trip - which depends on pairs (context operator, operand) over all tables.",
 			Rules: []RuleDef{
 				{"R-FUNCTOR-NOT-OPERAND", 1, ruleFunctorNotOperand},
@@ -33,7 +33,7 @@ func buildProperties() []Property {
 		},
 		{
 			ID: "C16", Title: "Relational built-ins enumerate exactly their relation in every call mode",
-			Decides:    "the clause 'text measured in characters, not bytes': in the atom-processing builtins (resolved from the registration calls) a string obtained from an atom is measured and indexed only through []rune or range offsets; its byte length feeds only capacities and zero tests; it is sliced only at offsets produced by ranging over the same string. Every built-in inspects the dynamic type of an argument only after resolving it (mode discrimination is made on the resolved term); no cutset-taking strings function is given computed text.",
+			Decides:    "the clause 'text measured in characters, not bytes': in the atom-processing builtins (resolved from the registration calls) a string obtained from an atom is measured and indexed only through []rune or range offsets; its byte length feeds only capacities and zero tests; it is sliced only at offsets produced by ranging over the same string. Every built-in inspects the dynamic type of an argument only after resolving it (mode discrimination is made on the resolved term); no cutset-taking strings function is given computed text. A Prolog integer is bounded inside the range of the narrow Go type before it is converted (character codes, bytes).",
 			NotDecided: "completeness and exactly-once enumeration in every mode - behavioural.",
 			Rules: []RuleDef{
 				{"R-ATOM-CANONICAL", 1, ruleAtomCanonical},
@@ -47,7 +47,7 @@ func buildProperties() []Property {
 		},
 		{
 			ID: "C19", Title: "A stream is one forward cursor: peeks do not consume, nothing skipped/repeated",
-			Decides:    "the cursor bookkeeping (buffer, position, end-of-stream, last rune size) is touched only by the stream's own methods; each method that moves the underlying reader/writer moves `position` in the same direction by the amount transferred, on the success edge; peek_char/peek_byte install the matching un-read on every path after their read and get_* never un-read; read_term/3 un-reads exactly once on the stream its parser was built on. Byte-unit operations on the underlying reader run only under streamType == binary and rune-unit operations only under text. A peek gives back what it read before the continuation can run and only when the read succeeded; read_term/3 gives back its look-ahead rune before the continuation runs and does not give back a delivered end of file; the lexer's window never reads its source again after the source has failed; un-reading a look-ahead that found the end takes the stream back to at-the-end.",
+			Decides:    "the cursor bookkeeping (buffer, position, end-of-stream, last rune size) is touched only by the stream's own methods; each method that moves the underlying reader/writer moves `position` in the same direction by the amount transferred, on the success edge; peek_char/peek_byte install the matching un-read on every path after their read and get_* never un-read; read_term/3 un-reads exactly once on the stream its parser was built on. Byte-unit operations on the underlying reader run only under streamType == binary and rune-unit operations only under text. A peek gives back what it read before the continuation can run and only when the read succeeded; read_term/3 gives back its look-ahead rune before the continuation runs and does not give back a delivered end of file; the lexer's window never reads its source again after the source has failed; un-reading a look-ahead that found the end takes the stream back to at-the-end. The end-of-stream state becomes `at` only when nothing is buffered.",
 			NotDecided: "that mixed operation sequences deliver consecutive data, the end-of-stream state machine, that one un-read is enough after read_term (would need the ring's contents, not its depth).",
 			Rules: []RuleDef{
 				{"R-EOS-AT-EMPTY", 2, ruleEosAtEmpty},
@@ -63,7 +63,7 @@ func buildProperties() []Property {
 		},
 		{
 			ID: "C08", Title: "Standard order is total and representation-independent; sorts obey it",
-			Decides:    "for every ordered pair of concrete term representations the Compare method, partially evaluated under 'the resolved argument has that dynamic type', returns exactly the constant the documented class order dictates, antisymmetrically (cross-class totality and antisymmetry; transitivity follows from a consistent rank); same-class pairs reach a value comparison; keysort/2 uses a stable sort; sort/2 and setof/3 share one set constructor that orders and deduplicates with Term.Compare. While a consumer tests a Compare result against -1 or 1, every member of the Compare family returns only -1, 0, 1 or another member's result; comparison inspects terms only after resolution.",
+			Decides:    "for every ordered pair of concrete term representations the Compare method, partially evaluated under 'the resolved argument has that dynamic type', returns exactly the constant the documented class order dictates, antisymmetrically (cross-class totality and antisymmetry; transitivity follows from a consistent rank); same-class pairs reach a value comparison; keysort/2 uses a stable sort; sort/2 and setof/3 share one set constructor that orders and deduplicates with Term.Compare. While a consumer tests a Compare result against -1 or 1, every member of the Compare family returns only -1, 0, 1 or another member's result; comparison inspects terms only after resolution. The reader produces no infinite Float (hence no NaN); atoms have one representation per name.",
 			NotDecided: "ordering within a class (atoms by text, compounds by arity/name/args, numeric values), and that different encodings of the same list compare equal.",
 			Rules: []RuleDef{
 				{"R-ATOM-CANONICAL", 1, ruleAtomCanonical},
@@ -105,7 +105,7 @@ func buildProperties() []Property {
 		},
 		{
 			ID: "C15", Title: "Go values cross the API as data: placeholders = literals, Scan exact or error",
-			Decides:    "every narrowing conversion of an answer value in Scan is guarded by an exactness/range test with an error edge (sizes from the analysed build, thorough tier repeats with 32-bit int); placeholder arguments never flow into a reader, lexer or parser constructor (they enter the grammar only as finished terms); a term is returned only when the argument queue is empty and the queue is indexed only when non-empty. The destination of each element conversion into a slice is computed per element inside the loop.",
+			Decides:    "every narrowing conversion of an answer value in Scan is guarded by an exactness/range test with an error edge (sizes from the analysed build, thorough tier repeats with 32-bit int); placeholder arguments never flow into a reader, lexer or parser constructor (they enter the grammar only as finished terms); a term is returned only when the argument queue is empty and the queue is indexed only when non-empty. The destination of each element conversion into a slice is computed per element inside the loop. An unsigned 64-bit Go integer is converted to Integer only under a bound; left-over placeholder arguments are reported by Term outside text mode and by the loader at the end of a text; reflect.Value.Interface is applied to struct fields only when they are exported.",
 			NotDecided: "that termOf(v) equals the literal denoting v under every double_quotes setting.",
 			Rules: []RuleDef{
 				{"R-REFLECT-EXPORTED", 2, ruleReflectExported},
@@ -119,7 +119,7 @@ func buildProperties() []Property {
 		},
 		{
 			ID: "C09", Title: "Database updates follow the logical update view; retract removes its match",
-			Decides:    "no delayed continuation addresses the live clause list by a position computed at call time (the mechanism behind the wrong deletions and the slice-bounds panic); calls iterate clause copies captured eagerly; the live database is written only from code statically reachable from asserta/assertz/retract/abolish/consult, the loader and the registration API.",
+			Decides:    "no delayed continuation addresses the live clause list by a position computed at call time (the mechanism behind the wrong deletions and the slice-bounds panic); calls iterate clause copies captured eagerly; the live database is written only from code statically reachable from asserta/assertz/retract/abolish/consult, the loader and the registration API. The assert built-ins compile a renamed copy of the given clause.",
 			NotDecided: "that the final database equals the sequential reference model for every history; front/end insertion order.",
 			Rules: []RuleDef{
 				{"R-ASSERT-COPY", 1, ruleAssertCopy},
@@ -131,7 +131,7 @@ func buildProperties() []Property {
 		},
 		{
 			ID: "C10", Title: "A stored clause is the clause that was given, and it executes as that clause",
-			Decides:    "the term kept for clause/2 and retract/1 is a closed copy (bindings applied) on every compile path; the operand types the compiler emits are the types the interpreter asserts; every emitted structure opcode is closed by exactly one pop; head and body argument compilers treat each term representation with opcodes of the same kind; unchecked assertions on struct fields hold for every value stored there; every opcode has a handler; copies keep variable sharing. The compiler and the database built-ins inspect a term's shape only after resolution and pair functor-name tests with arity.",
+			Decides:    "the term kept for clause/2 and retract/1 is a closed copy (bindings applied) on every compile path; the operand types the compiler emits are the types the interpreter asserts; every emitted structure opcode is closed by exactly one pop; head and body argument compilers treat each term representation with opcodes of the same kind; unchecked assertions on struct fields hold for every value stored there; every opcode has a handler; copies keep variable sharing. The compiler and the database built-ins inspect a term's shape only after resolution and pair functor-name tests with arity. The assert built-ins compile a renamed copy of the given clause and the loader empties the parser's variable table before each clause.",
 			NotDecided: "that the bytecode denotes the source term (argument order, variable numbering) for every clause - a translation-validation question.",
 			Rules: []RuleDef{
 				{"R-VARS-PER-CLAUSE", 1, ruleVarsPerClause},
@@ -150,7 +150,7 @@ func buildProperties() []Property {
 		},
 		{
 			ID: "C18", Title: "The operator table evolves as op/3 defines; failed updates change nothing",
-			Decides:    "op/3 validates everything before it mutates anything (no error exit is reachable after a mutation); the operator table is written only from code reachable from op/3 and the parser/VM initialisers; write_term/3 and every term-reading parser use the VM's one table. Every iteration of the commit loop of op/3 reaches define (a skip is allowed only across a whole-operator comparison); op/3 inspects its arguments after resolution.",
+			Decides:    "op/3 validates everything before it mutates anything (no error exit is reachable after a mutation); the operator table is written only from code reachable from op/3 and the parser/VM initialisers; write_term/3 and every term-reading parser use the VM's one table. Every iteration of the commit loop of op/3 reaches define (a skip is allowed only across a whole-operator comparison); op/3 inspects its arguments after resolution. The decision about the operator ',' does not depend on the requested priority or specifier.",
 			NotDecided: "that current_op/3 enumerates exactly the ISO table after every history (class exclusion, priority-0 removal are value-level).",
 			Rules: []RuleDef{
 				{"R-COMMA-FIXED", 1, ruleCommaFixed},
@@ -163,7 +163,7 @@ func buildProperties() []Property {
 		},
 		{
 			ID: "C20", Title: "Loading defines clauses in source order; a failed load defines nothing",
-			Decides:    "every write of the loader to the live database is dominated by the success edges of both staging steps and the commit loop has no early return; nothing statically reachable from the staging steps (short of a nested load) writes the live database. Every iteration of the commit loop writes the predicate to the database; ensure_loaded/1 un-marks the file on every error exit.",
+			Decides:    "every write of the loader to the live database is dominated by the success edges of both staging steps and the commit loop has no early return; nothing statically reachable from the staging steps (short of a nested load) writes the live database. Every iteration of the commit loop writes the predicate to the database; ensure_loaded/1 un-marks the file on every error exit. The parser says \"no more clauses\" only when no part of a token has been accepted.",
 			NotDecided: "source order, multifile/discontiguous semantics, effects of directives executed during a load that later fails (by design they run at once).",
 			Rules: []RuleDef{
 				{"R-MORE-CLEAN-END", 1, ruleMoreCleanEnd},
@@ -207,7 +207,7 @@ func buildProperties() []Property {
 		},
 		{
 			ID: "C04", Title: "throw/1 unwinds to the innermost still-executing catch/3, undoing bindings",
-			Decides:    "the ball is instantiated and copied at throw time (throw/1 raises only Exceptions whose term is renamedCopy(ball, env) of its own arguments); the catcher is unified and Recovery called under the environment catch/3 was called with, so all later bindings are undone (with R-ENV-IMMUT); variable sharing inside the ball is kept. The closures of catch/3 and throw/1 write no captured Go variable. Inside the protected thunk of catch/3 the continuation is only invoked under a nested marker frame whose handler declines every error and tells the handler of catch/3 to let that error pass: a catch/3 whose goal has exited does not intercept later errors.",
+			Decides:    "the ball is instantiated and copied at throw time (throw/1 raises only Exceptions whose term is renamedCopy(ball, env) of its own arguments); the catcher is unified and Recovery called under the environment catch/3 was called with, so all later bindings are undone (with R-ENV-IMMUT); variable sharing inside the ball is kept. The closures of catch/3 and throw/1 write no captured Go variable. Inside the protected thunk of catch/3 the continuation is only invoked under a nested marker frame whose handler declines every error and tells the handler of catch/3 to let that error pass: a catch/3 whose goal has exited does not intercept later errors. Unwinding starts only from an error found in a popped promise (all ancestors, the parent included, are on the stack).",
 			NotDecided: "which catch frame is selected - in particular that a catch/3 whose Goal has exited no longer intercepts (observation O1: it does on this tree; a property of the runtime promise stack).",
 			Rules: []RuleDef{
 				{"R-UNWIND-POPPED", 1, ruleUnwindPopped},
@@ -222,7 +222,7 @@ func buildProperties() []Property {
 		},
 		{
 			ID: "C11", Title: "findall/bagof/setof collect exactly the solutions, as copies, grouped by witness",
-			Decides:    "every collected instance is a renamed copy of the template taken under that solution's environment; after the nested search findall/3 and \\+/1 continue with their own outer environment (no goal binding is left behind, with R-ENV-IMMUT); copies keep variable sharing. The whole collection machinery inspects terms only after resolution.",
+			Decides:    "every collected instance is a renamed copy of the template taken under that solution's environment; after the nested search findall/3 and \\+/1 continue with their own outer environment (no goal binding is left behind, with R-ENV-IMMUT); copies keep variable sharing. The whole collection machinery inspects terms only after resolution. Every witness group of the grouping loop becomes an alternative; the variant test keeps the variable correspondence in both directions.",
 			NotDecided: "free-variable computation, witness variance, partition into groups, solution order.",
 			Rules: []RuleDef{
 				{"R-VARIANT-BIJECTIVE", 1, ruleVariantBijective},
@@ -237,7 +237,7 @@ func buildProperties() []Property {
 		},
 		{
 			ID: "C13", Title: "Cancelling the context stops any execution promptly; interpreter stays usable",
-			Decides:    "every nested trampoline runs under the caller's context (no fresh Background context around a goal, no captured context inside a thunk); every cycle of the trampoline passes through a non-blocking poll of ctx.Done() and cancellation is returned as ctx.Err(). ensure_loaded/1 un-marks the file on every error exit after marking it (a cancelled load can be repeated).",
+			Decides:    "every nested trampoline runs under the caller's context (no fresh Background context around a goal, no captured context inside a thunk); every cycle of the trampoline passes through a non-blocking poll of ctx.Done() and cancellation is returned as ctx.Err(). ensure_loaded/1 un-marks the file on every error exit after marking it (a cancelled load can be repeated). A function that observes ctx.Done() passes through ctx.Err() on every path to an exit.",
 			NotDecided: "the delay bound (Go-level loops between polls are bounded by term size, not by a constant), and that the interpreter stays usable afterwards.",
 			Rules: []RuleDef{
 				{"R-DONE-REPORTS", 1, ruleDoneReports},
@@ -248,7 +248,7 @@ func buildProperties() []Property {
 		},
 		{
 			ID: "C02", Title: "Unification yields a most general unifier, whatever the term representation",
-			Decides:    "a failed unification leaves no binding (environments are persistent: every Env store targets a node private to the writer); unify_with_occurs_check applies the check at every depth and before every bind; atomic terms are compared with a total non-panicking equality; every slice/string encoding of a list reports './2 through the Compound interface. The occurs check recurses into the referent of a bound variable and into every argument; the dynamic type of a term is inspected only after resolution; functor-name comparisons are paired with arity.",
+			Decides:    "a failed unification leaves no binding (environments are persistent: every Env store targets a node private to the writer); unify_with_occurs_check applies the check at every depth and before every bind; atomic terms are compared with a total non-panicking equality; every slice/string encoding of a list reports './2 through the Compound interface. The occurs check recurses into the referent of a bound variable and into every argument; the dynamic type of a term is inspected only after resolution; functor-name comparisons are paired with arity. unify never re-enters itself through a wrapper that fixes the occurs-check flag; the tail of a partial list replaces only the cdr; every one-character name, U+FFFD included, has the rune as its only representation.",
 			NotDecided: "most-generality, symmetry, idempotence, and that Arg(n) of the four list encodings denotes the same abstract argument (algebraic laws over all term pairs).",
 			Rules: []RuleDef{
 				{"R-ATOM-CANONICAL", 1, ruleAtomCanonical},
@@ -282,7 +282,7 @@ func buildProperties() []Property {
 		},
 		{
 			ID: "C05", Title: "No input crashes or wedges the host; every failure is a Prolog error term",
-			Decides:    "panic classes visible in code shape (zero divisor, negative shift, uncomparable interface comparison, missing table row) Every computed index into a fixed-size array is proven in range (enumeration, range loop, branch facts, or ring cursor by interval interpretation). The parser's next() moves its token window by one slot on every return path, failures included, so the unconditional backup() of its callers is symmetric (no endless re-parsing at the end of the input).",
+			Decides:    "panic classes visible in code shape (zero divisor, negative shift, uncomparable interface comparison, missing table row) Every computed index into a fixed-size array is proven in range (enumeration, range loop, branch facts, or ring cursor by interval interpretation). The parser's next() moves its token window by one slot on every return path, failures included, so the unconditional backup() of its callers is symmetric (no endless re-parsing at the end of the input). A memoising mark of the loader precedes every call that runs goals, and a file-driven recursion (include/1) records and tests what is being loaded.",
 			NotDecided: "termination on arbitrary text, slice bounds in general, memory exhaustion",
 			Rules: []RuleDef{
 				{"R-INCLUDE-GUARD", 1, ruleIncludeGuard},
